@@ -156,8 +156,26 @@ pub fn repo_root() -> PathBuf {
         .unwrap_or_else(|| PathBuf::from("/repo"))
 }
 
+/// scratch directory of this process for per-case files (created and removed within the run).
+/// Memory-backed when the machine offers it (/dev/shm): creating and deleting a handful of small
+/// files per case on the disk-backed /verif/work costs ~20 ms per case with 16 workers, on tmpfs
+/// well under 1 ms. Nothing a later run needs is kept there. RCV_WORK_DIR overrides.
 pub fn work_dir() -> PathBuf {
-    let d = verif_root().join("work").join(format!("{}", std::process::id()));
+    static BASE: std::sync::OnceLock<PathBuf> = std::sync::OnceLock::new();
+    let base = BASE.get_or_init(|| {
+        if let Some(d) = std::env::var_os("RCV_WORK_DIR") {
+            return PathBuf::from(d);
+        }
+        let shm = PathBuf::from("/dev/shm");
+        let probe = shm.join(format!("rcv-probe-{}", std::process::id()));
+        if shm.is_dir() && std::fs::create_dir_all(&probe).is_ok() {
+            let _ = std::fs::remove_dir_all(&probe);
+            shm.join("rcv-work")
+        } else {
+            verif_root().join("work")
+        }
+    });
+    let d = base.join(format!("{}", std::process::id()));
     let _ = std::fs::create_dir_all(&d);
     d
 }
